@@ -531,7 +531,7 @@ impl Oracle {
             format!("Ok({})", l.iter().map(|n| hex(n)).collect::<Vec<_>>().join(","))
         };
         // A.3: the level byte is the level, except that 11 with constraint_set3_flag means Level 1b
-        let level = format!("{}{}", d[3], if d[3] == 11 && d[2] & 0x10 != 0 { "b" } else { "" });
+        let level = format!("{}{}", d[3], if d[3] == 11 && d[2] & 0x10 != 0 { "b" } else if [10u8, 11, 12, 13, 20, 21, 22, 30, 31, 32, 40, 41, 42, 50, 51, 52, 60, 61, 62].contains(&d[3]) { "" } else { "?" });
         let want = format!("Ok v={} n={} prof={} compat={} level={} lsm1={} sps={} pps={} ", d[0], nsps, d[1], d[2], level, d[4] & 3, render(&lists[0], 7), render(&lists[1], 8));
         if !obs.starts_with(&want) { return format!("FAIL accessors / iterators gave [{}] expected [{}]", &obs[..obs.len().min(300)], &want[..want.len().min(300)]); }
         // create_context = every entry parsed on its own, in order, from its RBSP (un-escaped by the reference routine of this
@@ -838,7 +838,9 @@ impl Oracle {
             "profile" => { let b = v as u8; let back = Profile::from_profile_idc(ProfileIdc::from(b)).profile_idc(); if back == b { "ok".into() } else { format!("FAIL profile_idc {} maps back to {}", b, back) } }
             "level" => { let f = v as u8; let l: u8 = t[2].parse().unwrap(); let lv = Level::from_constraint_flags_and_level_idc(ConstraintFlags::from(f), l);
                 if lv.level_idc() != l { format!("FAIL (flags {:#04x}, level_idc {}) maps back to {}", f, l, lv.level_idc()) }
-                else if (lv == Level::L1_b) != (l == 11 && f & 0x10 != 0) { format!("FAIL level 1b decision wrong for flags {:#04x}, level_idc {}", f, l) } else { "ok".into() } }
+                else if (lv == Level::L1_b) != (l == 11 && f & 0x10 != 0) { format!("FAIL level 1b decision wrong for flags {:#04x}, level_idc {}", f, l) }
+                else if !matches!(lv, Level::Unknown(_)) != [10u8, 11, 12, 13, 20, 21, 22, 30, 31, 32, 40, 41, 42, 50, 51, 52, 60, 61, 62].contains(&l) { format!("FAIL level_idc {} is {} a level of Table A-1 but came back as {:?}", l, if matches!(lv, Level::Unknown(_)) { "" } else { "not" }, lv) }
+                else { "ok".into() } }
             "flags" => { let f = v as u8; let c = ConstraintFlags::from(f); let bits = [c.flag0(), c.flag1(), c.flag2(), c.flag3(), c.flag4(), c.flag5()];
                 let mut ok = u8::from(c) == f && c.reserved_zero_two_bits() == f & 3; for (i, b) in bits.iter().enumerate() { ok &= *b == ((f >> (7 - i)) & 1 == 1); }
                 if ok { "ok".into() } else { format!("FAIL constraint flags {:#04x} not preserved", f) } }
